@@ -128,6 +128,9 @@ def exec_case(ctx, r):
         ctx.violation(sub, "interval-bounds", f"{label}: candidate interval outside [0,{n}]", r)
         return
     score = fresh_score(kw["anomaly_score"], X.astype(float))
+    asp = kw["anomaly_score"]
+    cost_spec = {"cls": "L2Cost", "kw": {"param": None}} if asp is None else (
+        asp if asp["cls"].endswith("Cost") else (asp["kw"].get("cost") if asp["cls"] == "LocalAnomalyScore" else None))
     for i in range(len(st)):
         cand = [(a, b) for a in range(st[i] + 1, en[i]) for b in range(a + msl, en[i])
                 if (a - st[i]) + (en[i] - b) >= msl]
@@ -144,6 +147,29 @@ def exec_case(ctx, r):
             ctx.stat("nonfinite_rows_skipped")  # overflowing data: only the selection clauses are judged
             continue
         tol = 1e-9 * np.abs(agg).max() + 1e-300  # purely relative: scores scale with the data's unit
+        if cost_spec is not None and i % 3 == 0:
+            # the local anomaly score from its definition, without the library's adapter: cost of the candidate
+            # minus cost of the inner interval minus cost of the pooled surroundings, all from fresh cost objects
+            j = int((i * 7919 + n) % len(cand))
+            a, b = cand[j]
+            Xf_ = X.astype(float)
+            try:
+                c0 = build(cost_spec).fit(Xf_)
+                pooled = np.concatenate((Xf_[st[i]:a], Xf_[b:en[i]]))
+                t_out, t_in = c0.evaluate(np.array([[st[i], en[i]]])), c0.evaluate(np.array([[a, b]]))
+                t_pool = build(cost_spec).fit(pooled).evaluate(np.array([[0, len(pooled)]]))
+                want = (t_out - t_in - t_pool).sum()
+                # magnitude of the terms the arithmetic works with (costs are differences of sums of squares)
+                mag = (np.abs(t_out).sum() + np.abs(t_in).sum() + np.abs(t_pool).sum() + abs(agg[j])
+                       + float(np.sum(Xf_[st[i]:en[i]] ** 2)) + 1e-300)
+                ctx.stat("inner_scores_checked_against_cost_definition")
+                if np.isfinite(want) and np.isfinite(mag) and abs(want - agg[j]) > 1e-7 * mag:
+                    ctx.violation(sub, "score-vs-cost-definition", f"{label}: local anomaly score of "
+                                  f"[{st[i]},{a},{b},{en[i]}) is {agg[j]} but C(outer) - C(inner) - C(surroundings) "
+                                  f"from fresh {short(cost_spec)} objects is {want}", r)
+                    return
+            except (RuntimeError, ValueError):
+                ctx.stat("cost_definition_unavailable")
         if abs(sc[i] - agg.max()) > tol:
             ctx.violation(sub, "row-score", f"{label}: candidate [{st[i]},{en[i]}) reports score {sc[i]} "
                           f"but the maximum over admissible inner intervals is {agg.max()}", r)
